@@ -68,12 +68,14 @@ SIZES_T = [3, 5, 7, 9, 19, 49, 50, 51, 52, 99, 100, 101, 102, 149, 150, 151, 200
 # ----------------------------------------------------------------------------------------------
 # spaces
 # ----------------------------------------------------------------------------------------------
-def _filters_small(rows, cols):
+def _filters_small(rows, cols, na=3):
     out = [("median", {"filter_size": 1}), ("median", {"filter_size": 3}),
            ("bilateral", {"sigma_space": 0.7, "sigma_color": 1.0}),
            ("bilateral", {"sigma_space": 1.5, "sigma_color": 2.0})]
     if (rows, cols) != (3, 3):
-        out = [out[1], out[2]]
+        out = [out[1]]
+    elif na == 4:
+        out = out[1:]  # filter_size 1 is the identity: enumerated over the 3-symbol maps only
     return out
 
 
@@ -110,7 +112,8 @@ def spaces(tier, seed):
                 if m == "bilateral" and RF.bilateral_width(rows, cols, c["sigma_space"]) % 2 == 0:
                     continue  # even window: excluded (ASSUMPTIONS)
                 k = rows * 3 + cols * 5 + seed
-                for lat in ([k % 3] if quick else [k % 3, (k + 1) % 3]):
+                wide = m == "bilateral" and c["sigma_space"] >= 6
+                for lat in ([k % 3] if quick or wide else [k % 3, (k + 1) % 3]):
                     blocks.append({"kind": "block", "rows": rows, "cols": cols, "method": m, "cfg": c, "lat": lat,
                                    "off": (seed * 7 + k) % 17, "inv": (k + lat) % 3})
     under = [{"kind": "under", "rows": r, "cols": c, "fs": fs}
@@ -358,7 +361,7 @@ def run_single(case):
     rows, cols, na, nlow, seed = case["rows"], case["cols"], case["na"], case["nlow"], case["seed"]
     ncell = rows * cols
     ds = D.disparity(np.zeros((rows, cols), dtype=np.float32), interval=[-1, 2])
-    filters = _filters_small(rows, cols)
+    filters = _filters_small(rows, cols, na)
     viol, sigs = [], []
     n = trivial = 0
     for lo_i in range(na ** nlow):
